@@ -36,6 +36,8 @@ type vRecv struct {
 	resent   int64 // bytes transmitted although the receiver already held them
 	requests int
 	faults   int // transmissions that may still fail
+	prev     map[string]string // predecessor announced for each file (last seen)
+	prevBad  bool              // a file was announced with two different predecessors
 }
 
 func (r *vRecv) held(name string) int64 {
@@ -81,6 +83,13 @@ func (r *vRecv) transmit(p sts.Payload) (int, error) {
 		beg, n := part.GetSlice() // sender-side parts: (offset, length)
 		end := beg + n
 		name := part.GetName()
+		if r.prev == nil {
+			r.prev = map[string]string{}
+		}
+		if old, ok := r.prev[name]; ok && old != part.GetPrev() {
+			r.prevBad = true
+		}
+		r.prev[name] = part.GetPrev()
 		if r.hash[name] != part.GetFileHash() {
 			// another version: what was held belongs to the old one
 			r.ranges[name], r.hash[name], r.size[name] = nil, part.GetFileHash(), part.GetFileSize()
@@ -133,7 +142,8 @@ func (r *vRecv) partials() ([]*sts.Partial, error) {
 		if r.complete(name) || len(rs) == 0 {
 			continue
 		}
-		p := &sts.Partial{Name: name, Hash: r.hash[name], Size: r.size[name], Source: "src", Time: marshal.NanoTime{Time: r.v.Now().Add(-time.Hour)}}
+		// (the receiver's companion file keeps the announced predecessor)
+		p := &sts.Partial{Name: name, Prev: r.prev[name], Hash: r.hash[name], Size: r.size[name], Source: "src", Time: marshal.NanoTime{Time: r.v.Now().Add(-time.Hour)}}
 		for _, x := range rs {
 			p.Parts = append(p.Parts, &sts.ByteRange{Beg: x[0], End: x[1]})
 		}
@@ -181,14 +191,27 @@ func H_C07_Pipeline(v *verifrt.T) {
 	var size int64
 	if v.Choose("size-class", 2) == 0 {
 		size = int64(1 + v.Choose("small-size", 4))
-	} else {
+	} else if v.Param("SYMSIZE", 1) == 1 {
 		size = v.Int64("size")
 		v.Assume(size >= 5)
 		v.Assume(size <= int64(v.Param("MAXSIZE", 10)))
+	} else {
+		// (two files: a whole small file shares a payload with the tail of
+		// this one, and its completion time is computed in floating point
+		// from the payload size — kept concrete)
+		size = int64(5 + v.Choose("size", v.Param("MAXSIZE", 10)-4))
 	}
 	v.Version("v1", size)
 	mtime := v.Now().Add(-2 * time.Hour)
 	src := &vSource{v: v, files: map[string]*vSrcFile{"g/a": {name: "g/a", size: size, time: mtime, tag: "v1"}}, order: []string{"g/a"}}
+	two := v.Param("FILES", 1) == 2
+	if two {
+		// a second, newer file of the same group (in-order delivery: it must be
+		// announced with the first one as its predecessor, also after a restart)
+		v.Version("v2", 3)
+		src.files["g/b"] = &vSrcFile{name: "g/b", size: 3, time: mtime.Add(time.Minute), tag: "v2"}
+		src.order = []string{"g/b", "g/a"} // the scan finds them in no particular order
+	}
 	recv := &vRecv{v: v, size: map[string]int64{}, hash: map[string]string{}, ranges: map[string][][2]int64{}, faults: v.Param("FAULTS", 0)}
 	del := v.Bool("delete-after-confirmation")
 	run := func() {
@@ -240,7 +263,14 @@ func H_C07_Pipeline(v *verifrt.T) {
 	if !crashed {
 		v.Assert(recv.sent == sentBefore, "C07 a restart after a complete run transmits nothing")
 	}
-	v.Assert(recv.sent == size, "C07 every byte of the file is transmitted exactly once")
+	if two {
+		v.Assert(recv.complete("g/b"), "C07 after a crash at any point and a restart the receiver holds every file")
+		v.Assert(recv.sent == size+3, "C07 every byte of every file is transmitted exactly once")
+		v.Assert(!recv.prevBad && recv.prev["g/a"] == "" && recv.prev["g/b"] == "g/a", "C04 the newer file of a group is announced with the older one as its predecessor, the oldest with none — also when the sender restarted in between")
+		v.Reach("two-files")
+	} else {
+		v.Assert(recv.sent == size, "C07 every byte of the file is transmitted exactly once")
+	}
 	if len(src.removed) > 0 {
 		v.Assert(del, "C02 a source file is removed only if its tag says so")
 		v.Reach("removed")
